@@ -66,6 +66,9 @@ pub struct RunSummary {
     pub has_variant: bool,
     #[serde(default)]
     pub hung: bool,
+    /// final rendering of a clean session (only when the worker is asked to emit it)
+    #[serde(default)]
+    pub output: Option<String>,
 }
 
 pub const RUN_TIMEOUT_S: u64 = 10;
@@ -93,6 +96,10 @@ pub fn focus_of(s: &str) -> Focus {
 }
 
 pub fn run_one(seed: u64, focus: Focus, faults: bool, index: u64) -> (RunDesc, RunSummary) {
+    run_one_emit(seed, focus, faults, index, false)
+}
+
+pub fn run_one_emit(seed: u64, focus: Focus, faults: bool, index: u64, emit: bool) -> (RunDesc, RunSummary) {
     let desc = gen::generate(seed, focus, faults);
     let (out, hung) = exec::execute_watched(&desc, std::time::Duration::from_secs(RUN_TIMEOUT_S));
     let settings_digest = fnv64(serde_json::to_string(&desc.settings).unwrap().as_bytes());
@@ -109,6 +116,7 @@ pub fn run_one(seed: u64, focus: Focus, faults: bool, index: u64) -> (RunDesc, R
         abstract_states: out.abstract_states.clone(),
         harness_error: out.harness_error.clone(),
         has_variant: desc.variant.is_some(),
+        output: if emit && out.violations.is_empty() { out.final_output.clone() } else { None },
         violations: out.violations,
         probes: out.probes,
         hung,
@@ -119,13 +127,13 @@ pub fn run_one(seed: u64, focus: Focus, faults: bool, index: u64) -> (RunDesc, R
 /// Worker process body: runs indices from, from+stride, ... and prints one
 /// `R <json>` line per run. After a hung run the process exits with code 3
 /// (the abandoned thread still spins); the supervisor restarts it.
-pub fn worker(base_seed: u64, stream: u64, focus: Focus, faults: bool, from: u64, stride: u64, runs: u64) -> i32 {
+pub fn worker(base_seed: u64, stream: u64, focus: Focus, faults: bool, from: u64, stride: u64, runs: u64, emit: bool) -> i32 {
     use std::io::Write;
     let stdout = std::io::stdout();
     let mut i = from;
     while i < runs {
         let seed = derive_seed(base_seed, stream, i);
-        let (_d, s) = run_one(seed, focus, faults, i);
+        let (_d, s) = run_one_emit(seed, focus, faults, i, emit);
         let hung = s.hung;
         let mut lock = stdout.lock();
         let _ = writeln!(lock, "R {}", serde_json::to_string(&s).unwrap());
@@ -142,6 +150,10 @@ pub fn worker(base_seed: u64, stream: u64, focus: Focus, faults: bool, from: u64
 /// Supervisor: `workers` OS processes, each a deterministic slice of the
 /// stage's indices; results merged in index order.
 pub fn run_stage(base_seed: u64, stage: &Stage, workers: usize) -> Result<Vec<RunSummary>, String> {
+    run_stage_emit(base_seed, stage, workers, false)
+}
+
+pub fn run_stage_emit(base_seed: u64, stage: &Stage, workers: usize, emit: bool) -> Result<Vec<RunSummary>, String> {
     use std::io::{BufRead, BufReader};
     use std::process::{Command, Stdio};
     let exe = std::env::current_exe().map_err(|e| e.to_string())?;
@@ -167,6 +179,7 @@ pub fn run_stage(base_seed: u64, stage: &Stage, workers: usize) -> Result<Vec<Ru
                         .arg("--from").arg(next.to_string())
                         .arg("--stride").arg(stride.to_string())
                         .arg("--runs").arg(stage.runs.to_string())
+                        .arg("--emit").arg(if emit { "1" } else { "0" })
                         .stdout(Stdio::piped())
                         .stderr(Stdio::null())
                         .spawn()
@@ -254,6 +267,9 @@ pub fn replay(path: &str) -> i32 {
             return 2;
         }
     };
+    if r.engine == "sessim-rustc" {
+        return rustc_replay(&r);
+    }
     let out = exec::execute(&r.run);
     if let Some(h) = out.harness_error {
         eprintln!("HARNESS: {h}");
@@ -412,6 +428,41 @@ pub fn check(property: &str, tier: &str, base_seed: u64, workers: usize, runs_ov
         return CheckResult { exit_code: 2 };
     }
 
+    // ----- rustc stage (C01, C07): real type checking of final outputs -----
+    let mut rustc_modules = 0usize;
+    let mut rustc_wall = 0.0f64;
+    let mut rustc_observed: BTreeMap<(String, String), String> = BTreeMap::new();
+    if (property == "C01" || property == "C07") && runs_override.map(|r| r >= 100).unwrap_or(true) {
+        let n = if tier == "thorough" { 600 } else { 64 };
+        let rstage = Stage {
+            name: "rustc",
+            focus: if property == "C07" { Focus::Cycles } else { Focus::Compile },
+            faults: false,
+            runs: n,
+            stream: if property == "C07" { 41 } else { 40 },
+        };
+        match rustc_stage(base_seed, &rstage, workers) {
+            Ok((found, n_mod, wall)) => {
+                rustc_modules = n_mod;
+                rustc_wall = wall;
+                stages.push(rstage);
+                let si = stages.len() - 1;
+                for (seed, v) in found {
+                    if report::properties_of(&v).contains(&property) {
+                        rustc_observed.entry((v.invariant.clone(), v.key.clone())).or_insert(v.observed.clone());
+                        let e = groups.entry((v.invariant.clone(), v.key.clone())).or_insert((seed, si, 0));
+                        e.2 += 1;
+                    }
+                }
+                total_runs += n;
+            }
+            Err(e) => {
+                eprintln!("HARNESS: rustc stage: {e}");
+                return CheckResult { exit_code: 2 };
+            }
+        }
+    }
+
     // ----- triage of violation groups -----
     let mut exit_code = 0;
     let mut n_violations = 0u64;
@@ -430,6 +481,47 @@ pub fn check(property: &str, tier: &str, base_seed: u64, workers: usize, runs_ov
         }
         let stage = &stages[*si];
         let desc = gen::generate(*seed, stage.focus, stage.faults);
+        if inv == "I11" {
+            // decided by rustc, not by the in-process oracles: no minimisation,
+            // the replay regenerates the module and runs cargo check on it
+            let rf = ReplayFile {
+                property: property.to_string(),
+                engine: "sessim-rustc".into(),
+                invariant: inv.clone(),
+                finding_key: key.clone(),
+                observed: rustc_observed.get(&(inv.clone(), key.clone())).cloned().unwrap_or_default(),
+                expected: "the emitted module type-checks".into(),
+                step: desc.ops.len(),
+                original_seed: *seed,
+                shrink_executions: 0,
+                run: desc,
+            };
+            let dir = report::verif_root().join("replays");
+            let path = match report::write_replay(&dir, &rf) {
+                Ok(p) => p,
+                Err(e) => {
+                    eprintln!("HARNESS: cannot write replay: {e}");
+                    return CheckResult { exit_code: 2 };
+                }
+            };
+            match replay_in_fresh_process(&path) {
+                Ok((1, text)) if text.contains("REPRODUCED") => {
+                    n_violations += 1;
+                    exit_code = 1;
+                    println!("violation {inv}:{key} ({count} modules, first seed {seed}): {}", rf.observed);
+                    println!("VIOLATION property={property} replay={}", path.display());
+                }
+                Ok((code, text)) => {
+                    eprintln!("HARNESS: rustc replay of {} did not reproduce (exit {code}):\n{text}", path.display());
+                    return CheckResult { exit_code: 2 };
+                }
+                Err(e) => {
+                    eprintln!("HARNESS: cannot spawn replay: {e}");
+                    return CheckResult { exit_code: 2 };
+                }
+            }
+            continue;
+        }
         let target = (inv.clone(), key.clone());
         let (min, stats) = if processed > 12 {
             (desc.clone(), shrink::ShrinkStats { executions: 0, accepted: 0 })
@@ -530,6 +622,8 @@ pub fn check(property: &str, tier: &str, base_seed: u64, workers: usize, runs_ov
     ev.extra.insert("finding_groups".into(), json!(groups.iter().map(|((i, k), (s, _, c))| json!({"invariant": i, "key": k, "first_seed": s, "runs": c})).collect::<Vec<_>>()));
     ev.extra.insert("violations_of_other_properties_seen".into(), json!(other_property_hits));
     ev.extra.insert("known_findings_matched".into(), json!(known_lines.len()));
+    ev.extra.insert("rustc_checked_modules".into(), json!(rustc_modules));
+    ev.extra.insert("rustc_stage_wall_s".into(), json!(rustc_wall));
     ev.extra.insert("components_real".into(), json!(["typify_impl::TypeSpace (all conversion, merging, cycle breaking, finalisation, rendering, introspection)", "schemars / serde_json parsing", "syn parse of the output", "std HashMap/HashSet with SipHash keyed by the simulator"]));
     ev.extra.insert("components_stub".into(), json!(["the client (the simulator plays the build script / progenitor)", "rustc (structural oracle instead; real rustc only in the thorough C01/C07 stage)"]));
     if let Err(e) = ev.write() {
@@ -672,4 +766,174 @@ pub fn selftest(quick: bool) -> i32 {
         }
     }
     0
+}
+
+/// rustc stage: the final rendering of clean sessions, one module each, in a
+/// scratch crate with the documented dependency set; `cargo check` (1.80.1,
+/// offline) decides what the structural oracle cannot (type errors, E0072).
+/// Returns (seed, violation) pairs and the number of modules checked.
+pub fn rustc_stage(base_seed: u64, stage: &Stage, workers: usize) -> Result<(Vec<(u64, Violation)>, usize, f64), String> {
+    let t0 = Instant::now();
+    let res = run_stage_emit(base_seed, stage, workers, true)?;
+    let root = report::verif_root();
+    let template = root.join("sim/rustc-check");
+    let dir = root.join(format!(".work/rustc/{}-{}", stage.name, std::process::id()));
+    let _ = std::fs::remove_dir_all(&dir);
+    std::fs::create_dir_all(dir.join("src")).map_err(|e| e.to_string())?;
+    for f in ["Cargo.toml", "Cargo.lock", "rust-toolchain.toml"] {
+        std::fs::copy(template.join(f), dir.join(f)).map_err(|e| format!("copy {f}: {e}"))?;
+    }
+    let mut lib = String::from("#![allow(warnings)]\n");
+    let mut index_to_seed: BTreeMap<u64, u64> = BTreeMap::new();
+    let mut n = 0usize;
+    for s in &res {
+        if let Some(out) = &s.output {
+            std::fs::write(dir.join(format!("src/m{}.rs", s.index)), out).map_err(|e| e.to_string())?;
+            lib.push_str(&format!("pub mod m{};\n", s.index));
+            index_to_seed.insert(s.index, s.seed);
+            n += 1;
+        }
+    }
+    std::fs::write(dir.join("src/lib.rs"), lib).map_err(|e| e.to_string())?;
+    let out = std::process::Command::new("cargo")
+        .args(["check", "--offline", "--message-format=json", "--quiet"])
+        .current_dir(&dir)
+        .env("CARGO_TARGET_DIR", root.join("target/rustccheck"))
+        .env("CARGO_NET_OFFLINE", "true")
+        .output()
+        .map_err(|e| format!("cargo check: {e}"))?;
+    let mut found: Vec<(u64, Violation)> = Vec::new();
+    let mut seen: BTreeSet<(u64, String)> = BTreeSet::new();
+    for line in String::from_utf8_lossy(&out.stdout).lines() {
+        let Ok(m) = serde_json::from_str::<Value>(line) else { continue };
+        if m.get("reason") != Some(&json!("compiler-message")) {
+            continue;
+        }
+        let msg = &m["message"];
+        if msg["level"] != json!("error") {
+            continue;
+        }
+        let code = msg["code"]["code"].as_str().unwrap_or("no-code").to_string();
+        let file = msg["spans"].as_array().and_then(|a| a.first()).and_then(|s| s["file_name"].as_str()).unwrap_or("");
+        let idx: Option<u64> = file.strip_prefix("src/m").and_then(|f| f.strip_suffix(".rs")).and_then(|f| f.parse().ok());
+        let text = msg["message"].as_str().unwrap_or("").to_string();
+        match idx.and_then(|i| index_to_seed.get(&i).map(|s| (i, *s))) {
+            Some((_, seed)) => {
+                if seen.insert((seed, code.clone())) {
+                    found.push((
+                        seed,
+                        Violation {
+                            invariant: "I11".into(),
+                            key: format!("rustc:{code}:{}", normalise_rustc_message(&text)),
+                            step: 0,
+                            observed: format!("rustc rejects the final output of the session: error[{code}]: {text}"),
+                            expected: "the emitted module type-checks against serde, serde_json, chrono, uuid, regress".into(),
+                        },
+                    ));
+                }
+            }
+            None => {
+                if text.contains("aborting due to") || text.contains("could not compile") {
+                    continue;
+                }
+                return Err(format!("cargo check error outside the generated modules: [{code}] {text} ({file})"));
+            }
+        }
+    }
+    if !out.status.success() && found.is_empty() {
+        return Err(format!(
+            "cargo check failed without attributable errors:\n{}",
+            String::from_utf8_lossy(&out.stderr).lines().take(20).collect::<Vec<_>>().join("\n")
+        ));
+    }
+    let _ = std::fs::remove_dir_all(&dir);
+    Ok((found, n, t0.elapsed().as_secs_f64()))
+}
+
+/// Error text with generated names abstracted, so that the finding key names
+/// the kind of error and not the session: module prefixes dropped, generated
+/// type names (K<x>..., Hint<n>, Rt<n>Root, Q<n>T<n>) replaced by `T`.
+pub fn normalise_rustc_message(text: &str) -> String {
+    let mut out = String::new();
+    let mut word = String::new();
+    let flush = |w: &mut String, out: &mut String| {
+        if w.is_empty() {
+            return;
+        }
+        let b = w.as_bytes();
+        let generated = (b.len() > 2 && b[0] == b'K' && b[1].is_ascii_lowercase() && b[2].is_ascii_uppercase())
+            || w.starts_with("Hint")
+            || (w.starts_with("Rt") && w.ends_with("Root"))
+            || (b[0] == b'Q' && b.len() > 1 && b[1].is_ascii_digit());
+        let module = b[0] == b'm' && b.len() > 1 && b[1..].iter().all(|c| c.is_ascii_digit());
+        if generated {
+            out.push('T');
+        } else if module {
+            out.push('M');
+        } else {
+            out.push_str(w);
+        }
+        w.clear();
+    };
+    for c in text.chars() {
+        if c.is_ascii_alphanumeric() || c == '_' {
+            word.push(c);
+        } else {
+            flush(&mut word, &mut out);
+            out.push(c);
+        }
+    }
+    flush(&mut word, &mut out);
+    out.replace("M::", "").chars().take(120).collect()
+}
+
+/// Replay of a rustc-stage finding: regenerate the run, render, check one module.
+pub fn rustc_replay(r: &ReplayFile) -> i32 {
+    let out = exec::execute(&r.run);
+    let Some(text) = out.final_output else {
+        println!("NOT-REPRODUCED (the session is not clean any more)");
+        return 0;
+    };
+    let root = report::verif_root();
+    let template = root.join("sim/rustc-check");
+    let dir = root.join(format!(".work/rustc/replay-{}", std::process::id()));
+    let _ = std::fs::remove_dir_all(&dir);
+    if std::fs::create_dir_all(dir.join("src")).is_err() {
+        return 2;
+    }
+    for f in ["Cargo.toml", "Cargo.lock", "rust-toolchain.toml"] {
+        if std::fs::copy(template.join(f), dir.join(f)).is_err() {
+            eprintln!("HARNESS: cannot copy {f}");
+            return 2;
+        }
+    }
+    let _ = std::fs::write(dir.join("src/lib.rs"), "#![allow(warnings)]\npub mod m0;\n");
+    let _ = std::fs::write(dir.join("src/m0.rs"), &text);
+    let o = std::process::Command::new("cargo")
+        .args(["check", "--offline", "--message-format=short", "--quiet"])
+        .current_dir(&dir)
+        .env("CARGO_TARGET_DIR", root.join("target/rustccheck"))
+        .output();
+    let _ = std::fs::remove_dir_all(&dir);
+    match o {
+        Ok(o) => {
+            let err = String::from_utf8_lossy(&o.stderr).to_string();
+            let code = r.finding_key.trim_start_matches("rustc:").split(':').next().unwrap_or("");
+            if err.contains(&format!("error[{code}]")) || (code == "no-code" && err.contains("error")) {
+                for l in err.lines().filter(|l| l.contains("error")).take(5) {
+                    println!("  {l}");
+                }
+                println!("REPRODUCED I11 {}", r.finding_key);
+                println!("VIOLATION property={} replay=<this file>", r.property);
+                1
+            } else {
+                println!("NOT-REPRODUCED {}", r.finding_key);
+                0
+            }
+        }
+        Err(e) => {
+            eprintln!("HARNESS: cargo check: {e}");
+            2
+        }
+    }
 }
